@@ -116,6 +116,9 @@ func (x *Exec) eval(e ast.Expr, st *State, env *Env) Value {
 			if len(x.autoTrig) > 0 && strings.Contains(i.T, "!") && !strings.ContainsAny(i.T, "() ") {
 				// ghost map read at a bare bound variable: candidate trigger term for that variable
 				x.autoTrig[len(x.autoTrig)-1] = append(x.autoTrig[len(x.autoTrig)-1], "ghost:("+app("select", m.T, i.T)+")")
+			} else if len(x.autoTrig) > 0 && strings.Contains(i.T, "!b") {
+				// read at a composite index mentioning a bound variable (g[t+1]): using g[t] as trigger would loop
+				x.autoTrig[len(x.autoTrig)-1] = append(x.autoTrig[len(x.autoTrig)-1], "ghostnb:"+m.T)
 			}
 			return Scalar{app("select", m.T, i.T), ti}
 		}
